@@ -14,6 +14,7 @@ import math
 from typing import Any, Awaitable, Callable, Dict, List, Optional, Tuple
 
 import anyio
+from anyio.streams.memory import MemoryObjectReceiveStream, MemoryObjectSendStream
 
 from .vclock import run_virtual, vnow
 
@@ -67,49 +68,63 @@ class RecordingSend:
                 break
 
 
-class StreamProxy:
-    """Thin delegating proxy over a real memory stream that logs every send/receive with a
-    global sequence number, the virtual time and the calling task."""
+def _who() -> str:
+    t = asyncio.current_task()
+    return t.get_name() if t is not None else "?"
 
-    def __init__(self, inner: Any, log: List[Tuple], role: str) -> None:
-        self._inner = inner
-        self._log = log
-        self._role = role
 
-    def _who(self) -> str:
-        t = asyncio.current_task()
-        return t.get_name() if t is not None else "?"
+class LoggingReceive(MemoryObjectReceiveStream):  # type: ignore[type-arg]
+    """A *real* anyio memory receive stream (isinstance checks and private attributes behave as for the
+    streams the transports hand out) that logs every receive with the virtual time and the calling task."""
 
-    async def send(self, item: Any) -> None:
-        self._log.append(("send", vnow(), self._who(), item))
-        await self._inner.send(item)
-
-    def send_nowait(self, item: Any) -> None:
-        self._log.append(("send", vnow(), self._who(), item))
-        self._inner.send_nowait(item)
+    def attach(self, log: List[Tuple]) -> "LoggingReceive":
+        self._vlog = log
+        self._vdepth = 0
+        return self
 
     async def receive(self) -> Any:
-        self._log.append(("recv_start", vnow(), self._who(), None))
-        item = await self._inner.receive()
-        self._log.append(("recv", vnow(), self._who(), item))
+        self._vlog.append(("recv_start", vnow(), _who(), None))
+        self._vdepth += 1
+        try:
+            item = await super().receive()
+        finally:
+            self._vdepth -= 1
+        self._vlog.append(("recv", vnow(), _who(), item))
         return item
 
     def receive_nowait(self) -> Any:
-        item = self._inner.receive_nowait()
-        self._log.append(("recv", vnow(), self._who(), item))
+        item = super().receive_nowait()
+        if not self._vdepth:
+            self._vlog.append(("recv", vnow(), _who(), item))
         return item
 
-    def __aiter__(self):
+
+class LoggingSend(MemoryObjectSendStream):  # type: ignore[type-arg]
+    def attach(self, log: List[Tuple]) -> "LoggingSend":
+        self._vlog = log
+        self._vdepth = 0
         return self
 
-    async def __anext__(self):
+    async def send(self, item: Any) -> None:
+        self._vlog.append(("send", vnow(), _who(), item))
+        self._vdepth += 1
         try:
-            return await self.receive()
-        except anyio.EndOfStream:
-            raise StopAsyncIteration
+            await super().send(item)
+        finally:
+            self._vdepth -= 1
 
-    def __getattr__(self, name: str) -> Any:
-        return getattr(self._inner, name)
+    def send_nowait(self, item: Any) -> None:
+        if not self._vdepth:
+            self._vlog.append(("send", vnow(), _who(), item))
+        super().send_nowait(item)
+
+
+def StreamProxy(inner: Any, log: List[Tuple], role: str) -> Any:
+    """logging twin of a memory stream end: shares its state, replaces it (the original end is closed)"""
+    cls = LoggingReceive if isinstance(inner, MemoryObjectReceiveStream) else LoggingSend
+    twin = cls(_state=inner._state).attach(log)
+    inner.close()
+    return twin
 
 
 async def kill_task(task: "asyncio.Future", attempts: int = 40) -> bool:
@@ -175,6 +190,7 @@ class DriveResult:
         self.written: List[Tuple[float, Any]] = []  # (t, wire dict)
         self.written_raw: List[Tuple[float, Any]] = []
         self.delivered: List[Tuple[float, Any]] = []  # (t, wire) actually put on the read stream
+        self.delivered_idx: List[int] = []  # index into `schedule` of each delivered item, in delivery order
         self.req_id: Any = None
         self.token: Any = None
         self.extra: Dict[str, Any] = {}
@@ -203,6 +219,39 @@ def drive(
         rec = RecordingSend(write_capacity, drain_delays)
         res.inject = send.send_nowait
 
+        mapping: Dict[str, Any] = {"$ID": None, "$TOKEN": None}
+        loop = asyncio.get_running_loop()
+        entries = [(e[0], e[1], e[2] if len(e) > 2 else 0, i) for i, e in enumerate(schedule)]
+
+        def deliver(tmpl: Any, idx: int) -> None:
+            wire = subst(tmpl, mapping)
+            if isinstance(wire, dict) and "$raw" in wire:
+                item = wire["$raw"]
+                if isinstance(item, list):
+                    item = [to_message(x) for x in item]
+            else:
+                item = wire if raw_items else to_message(wire)
+            send.send_nowait(item)
+            res.delivered.append((vnow(), wire))
+            res.delivered_idx.append(idx)
+
+        # An entry may carry a third member, the *phase* within its instant (which of the events of one
+        # virtual instant comes first is part of the schedule):
+        #   0 (default) the feeder task wakes at t and sends (its timer was armed after the call's deadline);
+        #   n > 0       it first lets the other runnable tasks run n times;
+        #  -1           sent from a loop timer armed just before t;
+        #  -2           sent from a loop timer armed when the request has been written;
+        #  -3           sent by a task of its own whose timer was armed before the call started, i.e. before
+        #               the call armed its deadline: at t this task runs before the cancelled caller does.
+        async def early(t: float, tmpl: Any, idx: int) -> None:
+            await asyncio.sleep(t)
+            deliver(tmpl, idx)
+
+        etasks = [asyncio.ensure_future(early(t, tmpl, idx)) for t, tmpl, ph, idx in entries if ph == -3 and t > 0]
+        handled = {idx for t, tmpl, ph, idx in entries if ph == -3 and t > 0}
+        if etasks:
+            await asyncio.sleep(0)  # let them arm their timers
+
         async def feeder() -> None:
             if wait_first_write:
                 await rec.first.wait()
@@ -213,20 +262,24 @@ def drive(
                     res.token = w["params"]["_meta"]["progressToken"]
                 except Exception:
                     res.token = None
-            mapping = {"$ID": res.req_id, "$TOKEN": res.token}
-            for t, tmpl in sorted(schedule, key=lambda x: x[0]):
+            mapping.update({"$ID": res.req_id, "$TOKEN": res.token})
+            for t, tmpl, ph, idx in entries:
+                if ph == -2 and t > vnow() and idx not in handled:
+                    loop.call_at(t, deliver, tmpl, idx)
+                    handled.add(idx)
+            for t, tmpl, ph, idx in sorted(entries, key=lambda x: x[0]):
+                if idx in handled:
+                    continue
+                if ph == -1 and t - vnow() > 0.004:
+                    await asyncio.sleep(t - vnow() - 0.004)
+                    loop.call_at(t, deliver, tmpl, idx)
+                    continue
                 dt = t - vnow()
                 if dt > 0:
                     await asyncio.sleep(dt)
-                wire = subst(tmpl, mapping)
-                if isinstance(wire, dict) and "$raw" in wire:
-                    item = wire["$raw"]
-                    if isinstance(item, list):
-                        item = [to_message(x) for x in item]
-                else:
-                    item = wire if raw_items else to_message(wire)
-                send.send_nowait(item)
-                res.delivered.append((vnow(), wire))
+                for _y in range(max(ph, 0)):
+                    await asyncio.sleep(0)
+                deliver(tmpl, idx)
 
         ftask = asyncio.ensure_future(feeder())
         stask = asyncio.ensure_future(side(res, rec)) if side is not None else None
@@ -248,7 +301,7 @@ def drive(
         res.t_end = vnow()
         if settle > 0:
             await asyncio.sleep(settle)
-        for tk in (ftask, stask):
+        for tk in [ftask, stask] + etasks:
             if tk is not None:
                 await kill_task(tk)
         await rec.finish()
